@@ -435,6 +435,115 @@ func runFrameworkHelpers(r *hutil.Rng, o *hutil.Out, tier string) {
 		}
 		emit(qID, map[string]any{"comments": cs})
 	}
+	// ---- ast/imports.rego: _imported_identifier, imported_identifiers, resolved_imports on import lists as the
+	// PARSER may deliver them: several imports under one identifier (same last component, alias = another import's
+	// name, alias = alias, input vs data), exact duplicates, bare input/data, non-document heads
+	qIds := prepare("imports_ids", "x = [i | some i in data.regal.ast.imported_identifiers]")
+	qRes := prepare("imports_resolved", "x = [[k, v] | some k, v in data.regal.ast.resolved_imports]")
+	type impForm struct {
+		path  []string
+		alias any // nil = none
+	}
+	forms := []impForm{
+		{[]string{"data", "a", "foo"}, nil}, {[]string{"data", "b", "foo"}, nil}, {[]string{"data", "b", "bar"}, "foo"},
+		{[]string{"input", "foo"}, nil}, {[]string{"data", "foo"}, nil}, {[]string{"data", "foo"}, "bar"}, {[]string{"data", "bar"}, nil},
+		{[]string{"input"}, nil}, {[]string{"data"}, nil}, {[]string{"data"}, "foo"}, {[]string{"rego", "v1"}, nil}, {[]string{"data", "a", "v1"}, nil},
+		{[]string{"future", "keywords", "if"}, nil}, {[]string{"data", "a", "b c"}, nil}, {[]string{"x", "foo"}, nil}, {[]string{"x", "y"}, "foo"},
+		{[]string{"data", "foo", "bar"}, nil}, {[]string{"data", "x"}, "_"},
+	}
+	mkImp := func(f impForm) map[string]any {
+		var parts []any
+		for i, p := range f.path {
+			ty := "string"
+			if i == 0 {
+				ty = "var"
+			}
+			parts = append(parts, map[string]any{"type": ty, "value": p})
+		}
+		if parts == nil {
+			parts = []any{}
+		}
+		m := map[string]any{"path": map[string]any{"type": "ref", "value": parts}}
+		if f.alias != nil {
+			m["alias"] = f.alias
+		}
+		return m
+	}
+	emitImports := func(fs []impForm) {
+		var imps, desc []any
+		for _, f := range fs {
+			imps = append(imps, mkImp(f))
+			desc = append(desc, map[string]any{"path": f.path, "alias": f.alias})
+		}
+		if imps == nil {
+			imps, desc = []any{}, []any{}
+		}
+		in := map[string]any{"imports": imps}
+		o.Emit(map[string]any{"helper": "imports", "args": map[string]any{"imports": desc}, "got_ids": qIds.eval(in), "got_res": qRes.eval(in)})
+	}
+	emitImports(nil)
+	for _, a := range forms {
+		emitImports([]impForm{a})
+		for _, b := range forms {
+			emitImports([]impForm{a, b})
+		}
+	}
+	// outside the premise (the parser never delivers it): an alias that is the value false, alone and next to others
+	falseAlias := impForm{[]string{"data", "x"}, false}
+	emitImports([]impForm{falseAlias})
+	emitImports([]impForm{{[]string{"x"}, false}})
+	emitImports([]impForm{forms[0], {[]string{"x", "y"}, false}})
+	emitImports([]impForm{{[]string{"x", "y"}, false}})
+	for i := 0; i < n; i++ {
+		var fs []impForm
+		for j := 3 + r.Below(3); j > 0; j-- {
+			f := forms[r.Below(len(forms))]
+			if r.Below(40) == 0 {
+				f = falseAlias
+			}
+			fs = append(fs, f)
+		}
+		emitImports(fs)
+	}
+	// ---- ast.function_decls: several definitions per name (different arities, functions next to plain rules)
+	qDecl := prepare("function_decls", "x = {n: count(d.decl.args) | some n, d in data.regal.ast.function_decls(input.rules)}")
+	mkRule := func(name string, arity int) map[string]any {
+		head := map[string]any{"ref": []any{map[string]any{"type": "var", "value": name}}}
+		if arity >= 0 {
+			args := []any{}
+			for k := 0; k < arity; k++ {
+				args = append(args, map[string]any{"type": "var", "value": fmt.Sprintf("a%d", k)})
+			}
+			head["args"] = args
+		}
+		return map[string]any{"head": head}
+	}
+	emitDecls := func(sigs [][2]any) {
+		var rs, desc []any
+		for _, sg := range sigs {
+			rs = append(rs, mkRule(sg[0].(string), sg[1].(int)))
+			desc = append(desc, []any{sg[0], sg[1]})
+		}
+		if rs == nil {
+			rs, desc = []any{}, []any{}
+		}
+		o.Emit(map[string]any{"helper": "function_decls", "args": map[string]any{"rules": desc}, "got": qDecl.eval(map[string]any{"rules": rs})})
+	}
+	emitDecls(nil)
+	for _, a1 := range []int{-1, 0, 1, 2} {
+		emitDecls([][2]any{{"f", a1}})
+		for _, a2 := range []int{-1, 0, 1, 2} {
+			emitDecls([][2]any{{"f", a1}, {"f", a2}})
+			emitDecls([][2]any{{"f", a1}, {"g", a2}, {"f", a2}})
+		}
+	}
+	for i := 0; i < n/3; i++ {
+		var sigs [][2]any
+		for j := r.Below(6); j > 0; j-- {
+			sigs = append(sigs, [2]any{Pick(r, []string{"f", "g", "h"}), r.Below(5) - 1})
+		}
+		emitDecls(sigs)
+	}
 	// ---- to_set / to_array (closed queries: sets cannot be passed as JSON input)
 	for _, q := range []string{"{1, 2}", "[1, 2, 2]", "set()", "[]", "{\"a\": 1}", "5", "\"s\"", "null", "{[1], [2]}"} {
 		o.Emit(map[string]any{"helper": "to_set", "arg": q, "got": evalLiteral("y = data.regal.util.to_set(" + q + "); x = [is_set(y), count(y)]")})
